@@ -109,7 +109,9 @@ theorem freeCore_is_opCore (hlen : ∀ b, (H b).length = 32) (T : TrieSt) (hc : 
   have hrootT := getNodeT_ok H _ _ _ _ hroot
   have hbody := bodyT_eq H hlen T hc key val s.store.base hst
   have hchk := root_check H T s hcache hcomp
+  have hdb : storeDb s.store = s.store.base := by simp [storeDb, hcache]
   unfold freeCore opCore
+  rw [hdb]
   rw [if_neg (by rw [hchk]; simp)]
   have e0 : (toFree T).root = T.root := rfl
   have e1 : (toFree T).prune = T.prune := rfl
@@ -219,7 +221,11 @@ theorem freeRun_get (hlen : ∀ b, (H b).length = 32) (prune : Bool) (ops : List
     (hsm : ∀ h b, Dict.get? s.store.base h = some b → b.length < 2 ^ 64) (key : Bytes) :
     freeGet H (toFree T) key s = .ok (spec ops key) := by
   have hg := pruned_db_get H hlen prune ops T s (reachFree_nc H prune ops T s h) hbk hsm key
+  have hcache : s.store.cache = none :=
+    (reachOps_inv _ _ prune ops T s (reachOpsNC_reachOps _ _ prune ops T s (reachFree_nc H prune ops T s h))).2.2.1
+  have hdb : storeDb s.store = s.store.base := by simp [storeDb, hcache]
   unfold freeGet
+  rw [hdb]
   have e0 : (toFree T).root = T.root := rfl
   rw [e0, hg]
 
